@@ -65,6 +65,14 @@ Proof.
     + split; intros; discriminate.
     + split; [exact D|split; [exact E|exact F]].
   - (* read *) match type of H with context [if ?c then _ else _] => destruct c; [|discriminate] end. inversion H; subst. exact HI.
+  - (* the inference thread assigns a grad of the module it holds: that is the inference module, not the training one *)
+    destruct (Nat.eqb m m0 && (i <? n)) eqn:G; [|discriminate]. inversion H; subst; clear H.
+    apply andb_true_iff in G as [G _]. apply Nat.eqb_eq in G. subst m0.
+    destruct (C m eq_refl) as (L & Em).
+    unfold Inv; cbn [tp lk tref iref pv gv md isc stash]. split; [exact A|split; [exact B|split; [split; [exact C|exact C']|split; [exact D|split; [exact E|]]]]].
+    intros k Hk. destruct (F k Hk) as (F1 & F2 & F3). split; [exact F1|split; [|exact F3]].
+    intros j Hj. rewrite upd2_other_mod; [apply F2; exact Hj|].
+    assert (O : outside_hold (tp s) = true) by (rewrite Hk; reflexivity). destruct (A O) as [Ne _]. congruence.
   - (* section ends *) inversion H; subst; clear H. apply inv_set_i_same; [exact HI|discriminate|discriminate].
 Qed.
 
@@ -201,6 +209,9 @@ Proof.
       rewrite Hin, R1, R2. cbn [andb negb].
       apply (IH _ s' true (Some m) ws HI1); [|exact H]. unfold G19. rewrite Hi.
       split; [split; [intros _; eexists; reflexivity|reflexivity]|split; [intros m' X; inversion X; reflexivity|intros _; apply G3; exact Hin]].
+    + (* a grad assigned by the inference thread: no effect on who reads and writes what *)
+      destruct (Nat.eqb m gm && (gi <? n)); [|discriminate]. inversion E; subst; clear E.
+      eapply IH; [exact HI1| |exact H]. unfold G19; cbn [isc iref]. split; [exact G1|split; [exact G2|exact G3]].
     + inversion E; subst; clear E. apply (IH _ s' insec rd ws HI1); [|exact H].
       unfold G19, set_i; cbn. split; [|split].
       * split; [intros X; apply G1 in X; destruct X as (m & X); discriminate|intros (m & X); discriminate].
